@@ -72,12 +72,16 @@ pub fn main(o: &Opts) -> Result<i32, String> {
     let mut by_class: HashMap<String, Vec<&Value>> = HashMap::new();
     for n in &names {
         by_class.entry(class_key(n)).or_default().push(n);
+        by_class.entry(format!("T|{}", n["oneway"])).or_default().push(n);
     }
     let mut rng = Rng(seed ^ 0x5eed);
     let mut jobs: Vec<Job> = vec![];
     let mut no_names = 0usize;
     for (si, scn) in scns.iter().enumerate() {
-        let eps = endpoint_classes(scn);
+        let mut eps = endpoint_classes(scn);
+        if scn["family"].as_str() == Some("transport") {
+            eps = vec![("*".to_string(), format!("T|{}", scn["prm"]["oneway"]))];
+        }
         if eps.is_empty() {
             continue;
         }
@@ -154,6 +158,7 @@ pub fn main(o: &Opts) -> Result<i32, String> {
                         backends: asg,
                         seed: seed.wrapping_mul(1_000_003).wrapping_add((si * 131 + pi * 17 + ai) as u64),
                         prologue_len: PROLOGUE_LENS[(si + pi + ai + seed as usize) % PROLOGUE_LENS.len()],
+                        psks: n["psks"].as_array().map(|a| a.iter().filter_map(|x| x.as_u64().map(|v| v as u8)).collect()).unwrap_or_default(),
                     },
                 });
             }
@@ -206,7 +211,11 @@ pub fn main(o: &Opts) -> Result<i32, String> {
         distinct_cases.insert(format!("{}#{}", job.scn_idx, job.inst.name_for("*")));
         enc_ops += out.ops.iter().filter(|o| matches!(o, crate::resolver::Op::Encrypt { .. })).count();
         let mut vs: Vec<Value> = out.violations.iter().map(|v| v.to_json()).collect();
+        let reuse_applies = scn.get("noreuse").and_then(|x| x.as_bool()).unwrap_or(true);
         for (what, detail) in check_aead_ops(&out.ops) {
+            if what == "nonce_reuse" && !reuse_applies {
+                continue;
+            }
             vs.push(json!({"step": -1, "op": "aead_ops", "what": what, "expected": "no (key,nonce) reuse; reserved nonce unused",
                            "observed": detail, "cause": ""}));
         }
@@ -301,6 +310,7 @@ pub fn one(o: &Opts) -> Result<i32, String> {
         backends,
         seed: iv["seed"].as_u64().unwrap_or(1),
         prologue_len: iv["prologue_len"].as_u64().unwrap_or(0) as usize,
+        psks: iv["psks"].as_array().map(|a| a.iter().filter_map(|x| x.as_u64().map(|v| v as u8)).collect()).unwrap_or_default(),
     };
     let out = run_instance(&rec["scenario"], &inst);
     if let Some(e) = out.tool_error {
